@@ -30,10 +30,12 @@ import coremodel
 import coreprop
 import impl
 import lib
+import heaptie
 import universe
 from lib import coq_bool, coq_list, coq_nat
 
 COQ_TARGETS = ["theories/Proofs/CoreC06.vo", "theories/Model/CoreC06Eq.vo", "theories/Props/C06.vo"]
+COQ_TARGETS = COQ_TARGETS + [t for t in heaptie.COQ_TARGETS if t not in COQ_TARGETS]
 THEOREMS = ["C06_full", "C06_wire", "C06_wire_any_input", "C06_fresh", "C06_fresh_shape", "C06_deterministic",
             "C06_literal_rejects", "C06_mar_is_mar_fixed", "C06_pinned_none_first_refuted",
             "C06_pinned_none_first_shares", "C06_refuted_literal_eq"]
@@ -629,6 +631,9 @@ def correspond(run: lib.Run):
                    f"input {b.get('input')} -> {b.get('result')}: {b['why']}")
     if not lawbad:
         run.oblige("laws:MarshalLaws sampled on %d leaf calls" % sum(counts.values()), True)
+    # object identity (Props/C06Heap.v): frame (inputs never written), freshness (no mutable container shared with v inside
+    # the fully annotated fragment), separation of results; stream `identity` compares id()-level sharing with the heap model
+    lib.run_tie(run, heaptie)
 
 
 # ----------------------------------------------------------------------------------
